@@ -35,6 +35,7 @@ fn base(rng: &mut Rng, b: u64) -> ConnScenario {
     }
     // a couple of ignorable configuration packets so that the configuration phase has frames to mutate
     client.info_delay_ns = ms(20);
+    client.info = gen_info(rng);
     client.extras.push(crate::client::Extra { after_ack: true, at_ns: ms(5), id: 0x02, body: crate::client::Body::Raw { bytes: b"minecraft:brand\x07vanilla".to_vec() } });
     client.extras.push(crate::client::Extra { after_ack: true, at_ns: ms(10), id: 0x06, body: crate::client::Body::ResourcePack { result: 3 } });
     // a serverbound Keep Alive nobody asked for, with an id at the edge of the value range
